@@ -30,10 +30,10 @@ def rdWCfg (t : Toks) : WCfg × Toks :=
   let (rate, t) := tk t; let (mult, t) := tk t; let (minC, t) := tk t; let (taxMult, t) := tk t
   let (sws, t) := rdSwitches t
   let (swf, t) := rdSwitches t
-  let (tp, t) := tk t; let (ri, t) := tk t; let (fo, t) := tk t; let (mi, t) := tk t
+  let (tp, t) := tk t; let (ri, t) := tk t; let (fo, t) := tk t; let (mi, t) := tk t; let (dy, t) := tk t
   ({ instruments := inss, priceLimit := pB pl, inactiveLimit := pB il, volumeLimit := pB vl, volumePercent := pF vp, slipKind := pN sk,
      slipRate := pF sr, stockCost := { rate := pF rate, mult := pF mult, minC := pF minC, taxRate := 0.0, taxMult := pF taxMult },
-     swStock := sws, swFut := swf, tplusOn := pB tp, reinvest := pB ri, forced := pB fo, matchImmediately := pB mi }, t)
+     swStock := sws, swFut := swf, tplusOn := pB tp, reinvest := pB ri, forced := pB fo, matchImmediately := pB mi, daily := pB dy }, t)
 
 def rdDayIns (today : Nat) (t : Toks) : DayIns × Toks :=
   let (ins, t) := tk t; let (op, t) := tk t; let (cl, t) := tk t; let (ad, t) := tk t; let (bd, t) := tk t
